@@ -49,6 +49,11 @@ func NewSessionFactory(config *Config, store Metastore, kms KeyManagementService
 		config.Policy = NewCryptoPolicy()
 	}
 
+	if !config.Policy.CacheIntermediateKeys {
+		// the shared intermediate key cache option is ignored if intermediate key caching is disabled
+		config.Policy.SharedIntermediateKeyCache = false
+	}
+
 	var skCache keyCacher
 	if config.Policy.CacheSystemKeys {
 		skCache = newKeyCache(CacheTypeSystemKeys, config.Policy)
